@@ -103,7 +103,7 @@ func main() {
 		return
 	}
 
-	_ = os.MkdirAll(filepath.Dir(reportPath), os.FileMode(0600))
+	_ = os.MkdirAll(filepath.Dir(reportPath), os.FileMode(0700))
 	w, err := os.OpenFile(reportPath, os.O_RDWR|os.O_TRUNC|os.O_CREATE, os.FileMode(0600))
 	if err != nil {
 		_, _ = fmt.Fprintln(os.Stderr, "无法打开写入文件 "+reportPath)
